@@ -678,14 +678,15 @@ theorem empty_request_raises (m : Model) (ts : TState) (s t : Nat) (o : Orc) :
   simp [vecuHandleSE, handleSE, respond, respondWith, respondNoStateWith, mkReq]
 
 /-- **what ends the loop, exactly**: on a loop that is serving a ready server, after any event history (complete lines
-    of any bytes, end of stream), the loop has ended iff some event of the history is one of the three the code names,
-    and the recorded cause is that of the *first* such event: end of stream (`break`), a line that is not ASCII hex
+    of any bytes, end of stream), the loop has ended iff some event of the history is one of the four the code names,
+    and the recorded cause is that of the *first* such event: end of stream (`break`), a line longer than the reader's
+    limit (`ValueError` from `readline()` in the `except` arm), a line that is not ASCII hex
     text of even length (`UnicodeDecodeError` / `binascii.Error` in the `except` arm), an empty request
     (`IndexError` from `handle_request` in the `except` arm). Nothing else - no non-empty request in any reachable
     state with any oracle - ends it. -/
 theorem conn_end_exact (m : Model) (hm : ModelOK m) (evs : List Event) :
     ∀ (c : Conn), c.ended = none → Ready m c.ts.st →
-      (runConn m c evs).1.ended = evs.findSome? Event.endCause ∧ Ready m (runConn m c evs).1.ts.st := by
+      (runConn m c evs).1.ended = evs.findSome? (Event.endCause c.limit) ∧ Ready m (runConn m c evs).1.ts.st := by
   induction evs with
   | nil => intro c hc hr; exact ⟨by simpa [runConn] using hc, hr⟩
   | cons e rest ih =>
@@ -698,8 +699,14 @@ theorem conn_end_exact (m : Model) (hm : ModelOK m) (evs : List Event) :
       exact ⟨trivial, by simpa [serveEof, Conn.alive, hc] using hr⟩
     | line l s t o =>
       simp only [stepConn, Event.endCause]
+      by_cases hlong : l.length > c.limit
+      · rw [serveLine_long m c hc l hlong s t o]
+        simp only [hlong, ↓reduceIte, runConn_dead m { c with ended := some .tooLong } .tooLong rfl rest]
+        exact ⟨trivial, hr⟩
+      have hl : l.length ≤ c.limit := Nat.le_of_not_gt hlong
+      simp only [hlong, ↓reduceIte]
       rcases decodeLine_cases l with hbad | ⟨b, hmsg⟩
-      · rw [serveLine_bad m c hc l s t o hbad, hbad]
+      · rw [serveLine_bad m c hc l hl s t o hbad, hbad]
         simp only [runConn_dead m { c with ended := some .badLine } .badLine rfl rest]
         exact ⟨trivial, hr⟩
       · cases b with
@@ -709,7 +716,7 @@ theorem conn_end_exact (m : Model) (hm : ModelOK m) (evs : List Event) :
           obtain ⟨ts', out⟩ := res
           simp only at hcr; subst hcr
           have hts : ts'.st = (vecuHandleSE allOn m c.ts ⟨s, t, [], o⟩).1.st := by rw [hres]
-          rw [serveLine_crash m c hc l s t o [] hmsg ts' .index hres, hmsg]
+          rw [serveLine_crash m c hc l hl s t o [] hmsg ts' .index hres, hmsg]
           simp only [runConn_dead m { c with ts := ts', ended := some (.raised .index) } _ rfl rest]
           refine ⟨trivial, ?_⟩
           rw [hts]
@@ -719,7 +726,7 @@ theorem conn_end_exact (m : Model) (hm : ModelOK m) (evs : List Event) :
           · exact hr
         | cons b0 bt =>
           obtain ⟨st', reply, st0, hh, hr', _, _⟩ := handleSE_served m hm c.ts hr ⟨s, t, b0 :: bt, o⟩ (by simp)
-          have hs := serveLine_ok m c hc l s t o (b0 :: bt) hmsg _ _ _ hh
+          have hs := serveLine_ok m c hc l hl s t o (b0 :: bt) hmsg _ _ _ hh
           rw [hs, hmsg]
           exact ih { c with ts := ⟨st', t⟩, served := c.served + 1 } hc hr'
 
@@ -729,17 +736,17 @@ theorem conn_end_exact (m : Model) (hm : ModelOK m) (evs : List Event) :
     oracle -: the loop has not ended, it has served every one of them (so its epilogue cannot divide by zero once one
     was sent), and the session is still one the model offers -/
 theorem conn_never_ends (m : Model) (hm : ModelOK m) (evs : List Event) (t0 : Nat)
-    (hall : ∀ e ∈ evs, ∃ l s t o b, e = .line l s t o ∧ decodeLine l = .msg b ∧ b ≠ []) :
+    (hall : ∀ e ∈ evs, ∃ l s t o b, e = .line l s t o ∧ l.length ≤ 65536 ∧ decodeLine l = .msg b ∧ b ≠ []) :
     (runConn m (Conn.opened t0) evs).1.ended = none ∧ (runConn m (Conn.opened t0) evs).1.alive = true ∧
       Ready m (runConn m (Conn.opened t0) evs).1.ts.st := by
   obtain ⟨h1, h2⟩ := conn_end_exact m hm evs (Conn.opened t0) rfl hm.ready_init
-  have hnone : evs.findSome? Event.endCause = none := by
+  have hnone : evs.findSome? (Event.endCause (Conn.opened t0).limit) = none := by
     rw [List.findSome?_eq_none_iff]
     intro e he
-    obtain ⟨l, s, t, o, b, rfl, hmsg, hb⟩ := hall e he
+    obtain ⟨l, s, t, o, b, rfl, hl, hmsg, hb⟩ := hall e he
     cases b with
     | nil => exact absurd rfl hb
-    | cons _ _ => simp [Event.endCause, hmsg]
+    | cons _ _ => simp [Event.endCause, hmsg, Conn.opened, Nat.not_lt.mpr hl]
   rw [hnone] at h1
   exact ⟨h1, by simp [Conn.alive, h1], h2⟩
 
@@ -747,15 +754,15 @@ theorem conn_never_ends (m : Model) (hm : ModelOK m) (evs : List Event) (t0 : Na
     defined as soon as one request was served -/
 theorem conn_served_all (m : Model) (hm : ModelOK m) (evs : List Event) :
     ∀ (c : Conn), c.ended = none → Ready m c.ts.st →
-      (∀ e ∈ evs, ∃ l s t o b, e = .line l s t o ∧ decodeLine l = .msg b ∧ b ≠ []) →
+      (∀ e ∈ evs, ∃ l s t o b, e = .line l s t o ∧ l.length ≤ c.limit ∧ decodeLine l = .msg b ∧ b ≠ []) →
       (runConn m c evs).1.served = c.served + evs.length := by
   induction evs with
   | nil => intro c _ _ _; simp [runConn]
   | cons e rest ih =>
     intro c hc hr hall
-    obtain ⟨l, s, t, o, b, rfl, hmsg, hb⟩ := hall e (by simp)
+    obtain ⟨l, s, t, o, b, rfl, hl, hmsg, hb⟩ := hall e (by simp)
     obtain ⟨st', reply, st0, hh, hr', _, _⟩ := handleSE_served m hm c.ts hr ⟨s, t, b, o⟩ hb
-    have hs := serveLine_ok m c hc l s t o b hmsg _ _ _ hh
+    have hs := serveLine_ok m c hc l hl s t o b hmsg _ _ _ hh
     simp only [runConn, stepConn, hs]
     rw [ih { c with ts := ⟨st', t⟩, served := c.served + 1 } hc hr' (fun e he => hall e (by simp [he]))]
     simp only [List.length_cons]; omega
@@ -766,14 +773,14 @@ theorem conn_served_all (m : Model) (hm : ModelOK m) (evs : List Event) :
     lower-case hex digits before the single final newline, `2 * len + 1` bytes, and the client's `read()` on a stream
     that starts with them returns exactly `x.pdu` and leaves exactly what followed -/
 theorem conn_reply_line_wellformed (m : Model) (hm : ModelOK m) (c : Conn) (hc : c.ended = none) (hr : Ready m c.ts.st)
-    (l : Bytes) (s t : Nat) (o : Orc) (b : Bytes) (hmsg : decodeLine l = .msg b) (hb : b ≠ []) :
+    (l : Bytes) (hl : l.length ≤ c.limit) (s t : Nat) (o : Orc) (b : Bytes) (hmsg : decodeLine l = .msg b) (hb : b ≠ []) :
     ((vecuHandleSE allOn m c.ts ⟨s, t, b, o⟩).2 = .ok (serveLine m c l s t o).1.ts.st none ∧ (serveLine m c l s t o).2 = []) ∨
     ∃ x, (vecuHandleSE allOn m c.ts ⟨s, t, b, o⟩).2 = .ok (serveLine m c l s t o).1.ts.st (some x) ∧
       (serveLine m c l s t o).2 = hexB x.pdu ++ [NL] ∧ NL ∉ hexB x.pdu ∧ (∀ ch ∈ hexB x.pdu, isLowerHex ch = true) ∧
       (hexB x.pdu).length = 2 * x.pdu.length ∧ x.pdu ≠ [] ∧
       ∀ rest eof, readLine ((serveLine m c l s t o).2 ++ rest) eof = (.msg x.pdu, rest) := by
   obtain ⟨st', reply, st0, hh, hr', hr0, hresp⟩ := handleSE_served m hm c.ts hr ⟨s, t, b, o⟩ hb
-  have hs := serveLine_ok m c hc l s t o b hmsg _ _ _ hh
+  have hs := serveLine_ok m c hc l hl s t o b hmsg _ _ _ hh
   rw [hs, hh]
   cases reply with
   | none => exact Or.inl ⟨rfl, rfl⟩
@@ -792,6 +799,8 @@ structure Quiet (m : Model) (s : Sys) : Prop where
   ready : Ready m s.conn.ts.st
   sbuf : s.sbuf = []
   rbuf : s.rbuf = []
+  /-- the reader of the connection was created with asyncio's default limit -/
+  lim : s.conn.limit = 65536
 
 /-- **one `client.request` over the connection**: between quiet points, for any non-empty request, the client's
     `write` puts exactly one line on the server's stream, the loop reads it back as exactly the request bytes and
@@ -799,14 +808,16 @@ structure Quiet (m : Model) (s : Sys) : Prop where
     which is the decoded `x` (`encodeResp y = x.pdu`), accepted as the answer to every request object with these bytes -
     or the reply was suppressed and the client's read times out having consumed nothing. Either way the system is quiet
     again: the loop serves, nothing is left in either stream. -/
-theorem conn_exchange_accepted (m : Model) (hm : ModelOK m) (s : Sys) (hq : Quiet m s) (q : CItem) (hb : q.bytes ≠ []) :
+theorem conn_exchange_accepted (m : Model) (hm : ModelOK m) (s : Sys) (hq : Quiet m s) (q : CItem) (hb : q.bytes ≠ [])
+    (hlen : q.bytes.length ≤ 32768) :
     Quiet m (VEcuConn.exchange m s q).1 ∧ (VEcuConn.exchange m s q).1.conn.served = s.conn.served + 1 ∧
     ((∃ x y, serverReply m s.conn q = some (some x) ∧ (VEcuConn.exchange m s q).2 = .accepted y ∧ UdsResp.encodeResp y = x.pdu ∧
         y.WF ∧ ∀ r : UdsReq.Req, UdsReq.encode r = q.bytes → parsePdu x.pdu r = .accepted y) ∨
      (serverReply m s.conn q = some none ∧ (VEcuConn.exchange m s q).2 = .timeout)) := by
-  obtain ⟨hc, hr, hsb, hrb⟩ := hq
+  obtain ⟨hc, hr, hsb, hrb, hlim⟩ := hq
   obtain ⟨st', reply, st0, hh, hr', hr0, hresp⟩ := handleSE_served m hm s.conn.ts hr q hb
-  have hs := serveLine_ok m s.conn hc (hexB q.bytes) q.start q.stop q.orc q.bytes (decodeLine_hexB _) _ _ _ hh
+  have hl : (hexB q.bytes).length ≤ s.conn.limit := by rw [hexB_length, hlim]; omega
+  have hs := serveLine_ok m s.conn hc (hexB q.bytes) hl q.start q.stop q.orc q.bytes (decodeLine_hexB _) _ _ _ hh
   have hpump : serverPump m s.conn (s.sbuf ++ enc q.bytes) q.start q.stop q.orc =
       ({ s.conn with ts := ⟨st', q.stop⟩, served := s.conn.served + 1 }, lineOf reply, []) := by
     unfold serverPump
@@ -824,7 +835,7 @@ theorem conn_exchange_accepted (m : Model) (hm : ModelOK m) (s : Sys) (hq : Quie
   cases reply with
   | none =>
     simp only [lineOf, clientRead_empty]
-    exact ⟨⟨hc, hr', rfl, rfl⟩, by trivial, Or.inr ⟨by trivial, by trivial⟩⟩
+    exact ⟨⟨hc, hr', rfl, rfl, hlim⟩, by trivial, Or.inr ⟨by trivial, by trivial⟩⟩
   | some x =>
     obtain ⟨y, hdec, hacc⟩ := C03.genuine_accepted _ (dec_wf q.bytes) x.pdu (server_reply_genuine m q.orc st0 st' q.bytes x hr0 hb hresp)
     have hread : clientRead (enc x.pdu) q.bytes = (.accepted y, []) := by
@@ -832,21 +843,21 @@ theorem conn_exchange_accepted (m : Model) (hm : ModelOK m) (s : Sys) (hq : Quie
       rw [List.append_nil] at this
       simp only [clientRead, this, clientVerdict, hacc]
     simp only [lineOf, hread]
-    refine ⟨⟨hc, hr', rfl, rfl⟩, by trivial, Or.inl ⟨x, y, by trivial, by trivial, C02.encodeResp_decodeResp _ _ hdec, C02.decodeResp_wf _ _ hdec, ?_⟩⟩
+    refine ⟨⟨hc, hr', rfl, rfl, hlim⟩, by trivial, Or.inl ⟨x, y, by trivial, by trivial, C02.encodeResp_decodeResp _ _ hdec, C02.decodeResp_wf _ _ hdec, ?_⟩⟩
     intro r hrb2
     rw [C03.parsePdu_bytes r (UdsReq.decode q.bytes) (by rw [hrb2, enc_dec]) x.pdu]
     exact hacc
 
 /-- every history of `client.request` calls with non-empty requests keeps the system quiet -/
 theorem conn_history_quiet (m : Model) (hm : ModelOK m) (hist : List CItem) :
-    ∀ (s : Sys), Quiet m s → (∀ q ∈ hist, q.bytes ≠ []) → Quiet m (runExchanges m s hist).1 ∧
+    ∀ (s : Sys), Quiet m s → (∀ q ∈ hist, q.bytes ≠ [] ∧ q.bytes.length ≤ 32768) → Quiet m (runExchanges m s hist).1 ∧
       (runExchanges m s hist).2.length = hist.length ∧
       ∀ r ∈ (runExchanges m s hist).2, r = .timeout ∨ ∃ y, r = .accepted y := by
   induction hist with
   | nil => intro s hq _; exact ⟨hq, rfl, by simp [runExchanges]⟩
   | cons q rest ih =>
     intro s hq hall
-    obtain ⟨hq', _, hres⟩ := conn_exchange_accepted m hm s hq q (hall q (by simp))
+    obtain ⟨hq', _, hres⟩ := conn_exchange_accepted m hm s hq q (hall q (by simp)).1 (hall q (by simp)).2
     obtain ⟨h1, h2, h3⟩ := ih _ hq' (fun p hp => hall p (by simp [hp]))
     simp only [runExchanges]
     refine ⟨h1, by simp [h2], ?_⟩
@@ -864,23 +875,23 @@ theorem conn_history_quiet (m : Model) (hm : ModelOK m) (hist : List CItem) :
     `client.request`, whatever it is, returns the decoded reply the server gave to that very request (or times out
     because that very reply was suppressed): no exchange ever reads the answer to an earlier one -/
 theorem conn_no_stale_after_suppress (m : Model) (hm : ModelOK m) (hist : List CItem) (t0 : Nat)
-    (hall : ∀ q ∈ hist, q.bytes ≠ []) (q : CItem) (hb : q.bytes ≠ []) :
+    (hall : ∀ q ∈ hist, q.bytes ≠ [] ∧ q.bytes.length ≤ 32768) (q : CItem) (hb : q.bytes ≠ []) (hlen : q.bytes.length ≤ 32768) :
     let s := (runExchanges m (Sys.opened t0) hist).1
     s.rbuf = [] ∧ s.sbuf = [] ∧ s.conn.ended = none ∧ s.conn.served = hist.length ∧
     ((∃ x y, serverReply m s.conn q = some (some x) ∧ (VEcuConn.exchange m s q).2 = .accepted y ∧ UdsResp.encodeResp y = x.pdu) ∨
      (serverReply m s.conn q = some none ∧ (VEcuConn.exchange m s q).2 = .timeout)) := by
   intro s
-  have hq0 : Quiet m (Sys.opened t0) := ⟨rfl, hm.ready_init, rfl, rfl⟩
+  have hq0 : Quiet m (Sys.opened t0) := ⟨rfl, hm.ready_init, rfl, rfl, rfl⟩
   obtain ⟨hq, _, _⟩ := conn_history_quiet m hm hist _ hq0 hall
-  obtain ⟨_, _, hres⟩ := conn_exchange_accepted m hm s hq q hb
-  have hserved : ∀ (hist : List CItem) (s0 : Sys), Quiet m s0 → (∀ q ∈ hist, q.bytes ≠ []) →
+  obtain ⟨_, _, hres⟩ := conn_exchange_accepted m hm s hq q hb hlen
+  have hserved : ∀ (hist : List CItem) (s0 : Sys), Quiet m s0 → (∀ q ∈ hist, q.bytes ≠ [] ∧ q.bytes.length ≤ 32768) →
       (runExchanges m s0 hist).1.conn.served = s0.conn.served + hist.length := by
     intro hist
     induction hist with
     | nil => intro s0 _ _; simp [runExchanges]
     | cons p rest ih =>
       intro s0 h0 hall
-      obtain ⟨h1, h2, _⟩ := conn_exchange_accepted m hm s0 h0 p (hall p (by simp))
+      obtain ⟨h1, h2, _⟩ := conn_exchange_accepted m hm s0 h0 p (hall p (by simp)).1 (hall p (by simp)).2
       simp only [runExchanges]
       rw [ih _ h1 (fun r hr => hall r (by simp [hr])), h2]
       simp only [List.length_cons]; omega
@@ -895,13 +906,13 @@ theorem conn_no_stale_after_suppress (m : Model) (hm : ModelOK m) (hist : List C
 /-- the event view and the exchange view are the same loop: the server side of a `client.request` history is
     `runConn` over the lines the client wrote -/
 theorem conn_exchanges_are_events (m : Model) (hm : ModelOK m) (hist : List CItem) :
-    ∀ (s : Sys), Quiet m s → (∀ q ∈ hist, q.bytes ≠ []) →
+    ∀ (s : Sys), Quiet m s → (∀ q ∈ hist, q.bytes ≠ [] ∧ q.bytes.length ≤ 32768) →
       (runExchanges m s hist).1.conn = (runConn m s.conn (hist.map fun q => Event.line (hexB q.bytes) q.start q.stop q.orc)).1 := by
   induction hist with
   | nil => intro s _ _; rfl
   | cons q rest ih =>
     intro s hq hall
-    obtain ⟨hq', _, _⟩ := conn_exchange_accepted m hm s hq q (hall q (by simp))
+    obtain ⟨hq', _, _⟩ := conn_exchange_accepted m hm s hq q (hall q (by simp)).1 (hall q (by simp)).2
     have hpump : (VEcuConn.exchange m s q).1.conn = (serveLine m s.conn (hexB q.bytes) q.start q.stop q.orc).1 := by
       unfold VEcuConn.exchange serverPump
       rw [hq.sbuf, List.nil_append]
@@ -914,7 +925,7 @@ theorem conn_exchanges_are_events (m : Model) (hm : ModelOK m) (hist : List CIte
 /-- the division after the loop is defined once a request was served: after any non-empty history of non-empty
     requests `len(response_times)` is not zero -/
 theorem conn_epilogue_defined (m : Model) (hm : ModelOK m) (evs : List Event) (t0 : Nat) (hne : evs ≠ [])
-    (hall : ∀ e ∈ evs, ∃ l s t o b, e = .line l s t o ∧ decodeLine l = .msg b ∧ b ≠ []) :
+    (hall : ∀ e ∈ evs, ∃ l s t o b, e = .line l s t o ∧ l.length ≤ 65536 ∧ decodeLine l = .msg b ∧ b ≠ []) :
     (runConn m (Conn.opened t0) evs).1.epilogueRaises = false := by
   have h := conn_served_all m hm evs (Conn.opened t0) rfl hm.ready_init hall
   have hl : 0 < evs.length := List.length_pos_iff.mpr hne
@@ -925,11 +936,13 @@ theorem conn_epilogue_defined (m : Model) (hm : ModelOK m) (evs : List Event) (t
 
 /-- non-vacuity: TesterPresent answered, TesterPresent with the suppress bit (timeout, nothing left), a session change
     read back as the answer to itself; then an all-whitespace line ends the loop with IndexError; a line of odd length
-    ends a fresh loop; end of stream on a loop that served nothing makes the epilogue divide by zero -/
+    ends a fresh loop; so does a line of five bytes on a reader with limit 4; end of stream on a loop that served
+    nothing makes the epilogue divide by zero -/
 example : ((runExchanges exM (Sys.opened 0) [⟨1, 1, [0x3E, 0x00], {}⟩, ⟨2, 2, [0x3E, 0x80], {}⟩, ⟨3, 3, [0x10, 0x03], {}⟩]).2 =
       [.accepted .testerPresent, .timeout, .accepted (.dsc 3 [])]) ∧
     (runConn exM (Conn.opened 0) [.line [0x33, 0x45, 0x30, 0x30, 0x0D] 1 1 {}, .line [0x20] 2 2 {}]).1.ended = some (.raised .index) ∧
     (runConn exM (Conn.opened 0) [.line [0x33, 0x65, 0x30] 1 1 {}]).1.ended = some .badLine ∧
+    (runConn exM (Conn.opened 0 4) [.line [0x33, 0x65, 0x30, 0x30, 0x20] 1 1 {}]).1.ended = some .tooLong ∧
     (runConn exM (Conn.opened 0) [.eof []]).1.epilogueRaises = true := by decide +kernel
 
 end Conn
